@@ -90,24 +90,26 @@ Print Assumptions C12_ranges_scalar.
 
 (* --- agreement with the ECMAScript grammar on the fragment ---
    in_fragment u l (Regex/FragParser.v), a left-to-right scan of the units of l in the mode u:
-     a backslash is followed by a unit x, which is skipped, where x is not one of the digits 1-9 (back-references and legacy
-       octal escapes are outside the fragment); with u, x is not k, p or P (named references, property escapes); without u,
-       if x is 0 the unit after it is not a decimal digit (legacy octal);
+     a backslash is followed by a unit x, which is skipped, where with u, x is not k, p or P (named references, property
+       escapes), and if x is one of the digits 1-9, the decimal number that starts at x is below 2^63;
      every other unit is any unit except an opening bracket `[` (no classes);
      every `(?<` is followed by `=` or `!` (look-behind; named groups are outside the fragment);
      where a `{` starts a syntactically complete `{n}` `{n,}` `{n,m}`, n and m are below 2^63.
    Pattern u (Regex/Grammar.v): the ES2022 grammar (22.2.1 + Annex B behind the u switch) and early errors of the fragment
    Disjunction, Alternative, Term (incl. Annex B QuantifiableAssertion Quantifier), Assertion ^ $ \b \B (?= (?! (?<= (?<!,
    Quantifier * + ? {n} {n,} {n,m} with lazy suffix (early error: n > m, on the unbounded values), Atom = PatternCharacter | . |
-   \ AtomEscape | ( ) | (?: ), AtomEscape = CharacterClassEscape d D s S w W | CharacterEscape, CharacterEscape = ControlEscape
+   \ AtomEscape | ( ) | (?: ), AtomEscape = DecimalEscape | CharacterClassEscape d D s S w W | CharacterEscape, where a
+   DecimalEscape must not exceed NcapturingParens, the number of capturing groups of the whole pattern (an early error with u;
+   without u Annex B reads it as a legacy octal escape or an identity escape instead), CharacterEscape = ControlEscape
    f n r t v | c ControlLetter | 0 (not before a digit) | x HexDigit HexDigit | RegExpUnicodeEscapeSequence (uXXXX, with u also
-   surrogate pairs uD83D\uDE00 and u{CodePoint <= 10FFFF}) | IdentityEscape[?U];
+   surrogate pairs uD83D\uDE00 and u{CodePoint <= 10FFFF}) | LegacyOctalEscapeSequence (without u) | IdentityEscape[?U];
    Annex B without u: ExtendedAtom with ExtendedPatternCharacter (so `]` `{` `}` are literals where no quantifier starts),
    InvalidBracedQuantifier (a braced quantifier with nothing to repeat is an early error), `\c` not before a letter (the backslash
-   is a literal), IdentityEscape = any unit but c -- tried after the other escapes, so `\x`, `\u` without their digits and `\k`,
-   `\p` are identity escapes; with u a lone `{` `}` `]` is no Pattern and these escapes are errors.
+   is a literal), IdentityEscape = any unit but c -- tried after the other escapes, so `\x`, `\u` without their digits, `\8`, `\9`
+   and `\k`, `\p` are identity escapes; with u a lone `{` `}` `]` is no Pattern and these escapes are errors.
    The units are the ones the validator reads (code points with u, UTF-16 code units without).
-   From any validator state, in both modes: the model accepts exactly the Patterns. *)
+   From any validator state, in both modes: the model accepts exactly the Patterns (Pattern u s: s is a Disjunction whose
+   NcapturingParens parameter equals the number of capturing groups of its own derivation). *)
 Theorem C12_fragment_equiv : forall st s u, in_fragment u (visible_units s u) = true ->
   (verdict_of (validate_pattern st s u) = VOk <-> Pattern u (visible_units s u)).
 Proof. exact fragment_equiv. Qed.
@@ -135,7 +137,10 @@ Print Assumptions C12_recogniser_decides_grammar.
    ex_escapes_annexb = \c  \c1  \c*  \x  \x4  \xg  \u  \u004  \u{110000}  \u{}  \u{41  \k  \p  \-  \_  \a  a\c : Patterns and accepted
    without u; not Patterns with u, and rejected with u where in the fragment (\k, \p are outside it with u);
    ex_code_points = \u{41}  \u{10FFFF}  \u{000000041}  \u{1F600}+ : Patterns and accepted with u;
-   ex_escapes_invalid = \c**  \x41**  (\u0041  \0{2,1} : neither Patterns nor accepted, both modes *)
+   ex_escapes_invalid = \c**  \x41**  (\u0041  \0{2,1} : neither Patterns nor accepted, both modes;
+   ex_backrefs = (a)\1  \1(a)  ((a))\2  (?=(a))\1  (a)(b)(c)(d)(e)(f)(g)(h)(i)(j)\10 : Patterns, accepted, both modes;
+   ex_backrefs_annexb = \1  (a)\2  \8  \18  \00  \07  \377  \400  \08  (?:a)\1  \(\1  (a)\18 : Patterns and accepted without u only;
+   \1**  (\1  \1{2,1} : neither Patterns nor accepted, both modes *)
 Example C12_fragment_example_valid : forall st u,
   in_fragment u ex_valid = true /\ Pattern u ex_valid /\ verdict_of (validate_pattern st ex_valid u) = VOk.
 Proof. intros st u. split; [exact (ex_valid_ok u)|split; [exact (ex_valid_pattern u) | exact (ex_valid_accepted st u)]]. Qed.
@@ -166,3 +171,13 @@ Proof. exact ex_code_points_valid. Qed.
 Example C12_fragment_example_escapes_invalid : forall st u l, In l ex_escapes_invalid ->
   ~ Pattern u (visible_units l u) /\ verdict_of (validate_pattern st l u) <> VOk.
 Proof. exact ex_escapes_invalid_both. Qed.
+Example C12_fragment_example_backrefs : forall st u l, In l ex_backrefs ->
+  Pattern u (visible_units l u) /\ verdict_of (validate_pattern st l u) = VOk.
+Proof. exact ex_backrefs_valid. Qed.
+Example C12_fragment_example_backrefs_annexb : forall st l, In l ex_backrefs_annexb ->
+  (Pattern false l /\ verdict_of (validate_pattern st l false) = VOk) /\
+  (~ Pattern true l /\ verdict_of (validate_pattern st l true) <> VOk).
+Proof. exact ex_backrefs_annexb_modes. Qed.
+Example C12_fragment_example_backrefs_invalid : forall st u l, In l [[92;49;42;42]; [40;92;49]; [92;49;123;50;44;49;125]] ->
+  ~ Pattern u (visible_units l u) /\ verdict_of (validate_pattern st l u) <> VOk.
+Proof. exact ex_backrefs_invalid. Qed.
